@@ -52,7 +52,7 @@ NOT_APPLICABLE = {
  "C15": "compile-time contracts (variance, borrows, const-ness, auto traits): decided by the type checker on witness programs, there is no execution/state/history to enumerate, so model checking does not apply (DESIGN §5).",
 }
 # properties whose checks are still being built (kept here so the manifest is valid at every commit)
-PENDING = {'C19': 'check under construction (ZST / huge capacities)'}
+PENDING = {}
 
 def main():
     checks = []
